@@ -157,3 +157,8 @@ Definition ns_stored (r : @res nres) : Prop := r = RVal NFoundT \/ r = RVal NSto
    path that passes the check-then-act shape on obj *)
 Definition ns_prog_ok (obj : string) (progs : list (list (@op nsmap nres))) : Prop :=
   Forall (Forall (fun o => exists k body, o = ns_op k body /\ cta_ok obj body = true)) progs.
+
+(* a registry program for the machine-history theorem: every operation is disciplined on the one
+   lock m, writes only obj, and lookups / snapshots do not write *)
+Definition kprogs_ok (m obj : string) (kp : list (list (gkind * list lev))) : Prop :=
+  Forall (Forall (fun x => wf_op m (gop x) /\ kind_body_ok obj x = true)) kp.
